@@ -1,6 +1,7 @@
 package main
 
 import (
+	"strconv"
 	"fmt"
 	"go/ast"
 	"go/token"
@@ -853,6 +854,30 @@ func (f *Frame) specEnv(h *Heap, li *LoopInfo, from *ssa.BasicBlock) *SpecEnv {
 
 func (f *Frame) lookupName(name string, li *LoopInfo, from *ssa.BasicBlock) (specVal, bool) {
 	fn := f.fn
+	// <name>__loop<k>: the phi called <name> at the header of loop k (an enclosing
+	// loop's variable that an inner loop shadows, e.g. the outer rangeindex)
+	if i := strings.Index(name, "__loop"); i > 0 {
+		if k, err := strconv.Atoi(name[i+6:]); err == nil {
+			for _, l := range findLoops(fn) {
+				if l.ordinal != k {
+					continue
+				}
+				if li != nil && l.header == li.header {
+					return f.lookupName(name[:i], li, from)
+				}
+				for _, ins := range l.header.Instrs {
+					phi, ok := ins.(*ssa.Phi)
+					if !ok {
+						break
+					}
+					if phi.Comment == name[:i] && f.vals[phi].T != "" {
+						return specVal{v: f.get(phi), t: phi.Type()}, true
+					}
+				}
+			}
+			return specVal{}, false
+		}
+	}
 	var at *ssa.BasicBlock
 	if li != nil {
 		at = li.header
